@@ -48,6 +48,7 @@ type hclock struct {
 	smu   *sync.RWMutex // the scheduler's mutex
 	tNext *time.Time    // &timer.next
 	tStop *bool         // &timer.stopped
+	stuck bool          // the scheduler's mutex could not be taken within the hang bound
 }
 
 func newHClock(base time.Time) *hclock {
@@ -90,8 +91,17 @@ func (h *hclock) bind(s *scheduler.TreeScheduler) error {
 // scheduler's timer if it is due at the new time. after runs with the scheduler's mutex
 // still held (the harness publishes its own notion of "now" there). Returns whether a
 // tick was dropped because the channel was full (real-timer semantics, see 3. above).
+//
+// The mutex is taken with the hang bound: Schedule and Release need the same mutex, so a
+// scheduler that keeps it for the whole bound cannot "return promptly" either; stuck reports it.
 func (h *hclock) advance(d time.Duration, after func(now time.Time)) (dropped bool) {
-	h.smu.Lock()
+	if h.stuck {
+		return false
+	}
+	if !bounded(h.smu.Lock) {
+		h.stuck = true
+		return false
+	}
 	defer h.smu.Unlock()
 	target := h.Mock.Now().Add(d)
 	t := h.timers[0]
